@@ -1,6 +1,7 @@
 // fam_exec — C05 (Call xor Drop), C07 (Strand), C08 (FairThreadPool); also feeds C03/C04.
 #include "vf_exec.hpp"
 
+#include <yaclib/async/run.hpp>
 #include <yaclib/exe/submit.hpp>
 
 #include <deque>
@@ -511,6 +512,94 @@ void SubmitFuncCase(Ctx& ctx) {
   }
 }
 
+// ------------------------------------------------------------------------------------------------
+// pipeline steps queued in a pool that is stopped at a random moment (C03 lifecycle, C05 StopError routing)
+
+void PipelineStopCase(Ctx& ctx) {
+  int workers = static_cast<int>(ctx.rng.In(1, 3));
+  int len = static_cast<int>(ctx.rng.In(1, 4));
+  int stop_kind = static_cast<int>(ctx.rng.In(1, 3));
+  u32 stop_delay = ctx.rng.Coin() ? ctx.rng.Below(8) : ctx.rng.Below(40);
+  int code = static_cast<int>(ctx.rng.In(1, 100000));
+  u32 inline_mask = ctx.rng.Below(16);
+  u32 work = ctx.rng.Below(3);
+  ctx.Note("pipeline Run(pool).Then x%d on %d workers, %s after %u yields; ", len, workers, kStopName[stop_kind], stop_delay);
+  auto pool = yaclib::MakeFairThreadPool(static_cast<std::uint64_t>(workers));
+  std::atomic<int> ran[6] = {};
+  std::atomic<int> bad_value{0};
+  int final_state = -9, final_code = 0;
+  {
+    auto f0 = yaclib::Run<MyError>(*pool, [&ran, code, cap = Tracked{1}] {
+      ran[0].fetch_add(1, kRlx);
+      return Tracked{code};
+    });
+    yaclib::FutureOn<Tracked, MyError> f = std::move(f0);
+    for (int i = 1; i <= len; ++i) {
+      auto cb = [&ran, &bad_value, i, code, work, cap = Tracked{100 + i}](Tracked v) {
+        ran[i].fetch_add(1, kRlx);
+        if (!v.Fresh() || v.v != code + i - 1 || !cap.Fresh()) {
+          bad_value.fetch_add(1, kRlx);
+        }
+        Jitter(work);
+        return Tracked{v.v + 1};
+      };
+      if ((inline_mask >> i) & 1U) {
+        f = std::move(f).ThenInline(cb);
+      } else {
+        f = std::move(f).Then(*pool, cb);
+      }
+    }
+    yaclib_std::thread stopper([&] {
+      Jitter(stop_delay);
+      if (stop_kind == kStop) {
+        pool->Stop();
+      } else if (stop_kind == kSoftStop) {
+        pool->SoftStop();
+      } else {
+        pool->HardStop();
+      }
+    });
+    yaclib_std::thread consumer([&] {
+      auto r = std::move(f).Get();
+      final_state = static_cast<int>(r.State());
+      if (final_state == 0) {
+        final_code = std::as_const(r).Value().Fresh() ? std::as_const(r).Value().v : -2;
+      } else if (final_state == 2) {
+        final_code = std::as_const(r).Error().code;
+      }
+    });
+    consumer.join();
+    stopper.join();
+  }
+  pool->Stop();
+  pool->Wait();
+  ctx.SetNontrivial(true);
+  int invoked = 0;
+  bool prefix = true;
+  for (int i = 0; i <= len; ++i) {
+    int c = ran[i].load(kRlx);
+    ctx.Check(c <= 1, "callback-at-most-once", "C05,C03", "pipeline step %d ran %d times", i, c);
+    if (c != 0) {
+      prefix = prefix && invoked == i;
+      ++invoked;
+    }
+  }
+  ctx.Check(prefix, "value-callback-after-failure", "C05", "a value callback ran after an earlier step had been dropped");
+  ctx.Check(bad_value.load(kRlx) == 0, "payload-intact", "C05,C03", "a pipeline step received a wrong or torn value");
+  if (invoked == len + 1) {
+    ctx.Class("ran-to-completion");
+    ctx.Check(final_state == 0 && final_code == code + len, "final-result", "C05",
+              "every step ran but the final Result is state=%d code=%d (expected value %d)", final_state, final_code,
+              code + len);
+  } else {
+    ctx.Class("cut-by-stop");
+    ctx.Check(final_state == 2 && final_code == -1, "final-result", "C05",
+              "a step was dropped by the stopped pool: final Result state=%d code=%d, expected StopError", final_state,
+              final_code);
+  }
+  ctx.Observe(static_cast<u64>(invoked));
+}
+
 }  // namespace
 
 VF_CELL(strand_pool, "strand/pool", "C07,C05,C03,C04", 30) {
@@ -542,6 +631,9 @@ VF_CELL(pool_soft, "pool/softstop", "C08,C05,C03", 14) {
 }
 VF_CELL(pool_hard, "pool/hardstop", "C08,C05,C03", 10) {
   PoolCase(ctx, 0, kHardStop);
+}
+VF_CELL(pipe_stop, "pipeline/pool-stopped", "C05,C03,C04", 16) {
+  PipelineStopCase(ctx);
 }
 VF_CELL(exec_inline, "simple/inline", "C05", 2) {
   SimpleExecCase(ctx, 0);
